@@ -22,7 +22,7 @@ from .. import refmodel as R
 from .. import gen as G
 
 PID = 'C02'
-RULE = ('hard-sphere cases = (packing fraction uniform 0.02..0.47, diameter 0.8|1.0|1.2, kT 0.3..10, r_max = 25.6 d, levels dr = d/10, d/20, d/40, d/80); '
+RULE = ('hard-sphere cases = (packing fraction uniform 0.02..0.47, diameter 0.8|1.0|1.2, kT 0.3..10, r_max = 25.6 d, levels dr = d/10, d/20, d/40, d/80; 40 % as a density sweep on one re-used System whose state moves on before the collected object is post-processed; Domain via dr/dk/setters, kT via constructor/assignment); '
         'dilute cases = every shipped potential (epsilon/kT in -1.5..1.5) x {PY, HNC, MSA(flag)} at packing fraction 1e-7 on dr = 0.05, 0.025, 0.0125 (narrow features such as the WCA shoulder must be resolved; the error ratio is judged on the finest pair); '
         'each case = one refinement family; only families whose every level converges (fatol 1e-11) are judged; non-trivial = all levels converged and compared; '
         'distinct = distinct case digests')
@@ -43,11 +43,12 @@ def cases(ctx):
     n = ctx.budget(48, 320)
     for it in range(n):
         yield {'kind': 'pyhs', 'eta': float(rng.uniform(0.02, 0.47)), 'd': float(rng.choice([1.0, 1.0, 0.8, 1.2])), 'kT': float(10 ** rng.uniform(np.log10(0.3), 1)),
-               'levels': 4, 'hc': bool(rng.random() < 0.3)}
+               'levels': 4, 'hc': bool(rng.random() < 0.3), 'reuse': bool(rng.random() < 0.4), 'via': str(rng.choice(G.VIAS)), 'kT_via': str(rng.choice(['ctor', 'assign']))}
     n = ctx.budget(84, 630)
     for it in range(n):
         yield {'kind': 'dilute', 'pot': POTS[it % len(POTS)], 'clo': ['PY', 'HNC', 'MSA'][(it // len(POTS)) % 3], 'kT': float(rng.choice([1.0, 2.5, 0.7, 4.0])),
-               'eps': float(rng.uniform(0.2, 1.5)) * float(rng.choice([-1, 1])), 'alpha': float(rng.uniform(0.3, 1.0)), 'levels': 3}
+               'eps': float(rng.uniform(0.2, 1.5)) * float(rng.choice([-1, 1])), 'alpha': float(rng.uniform(0.3, 1.0)), 'levels': 3,
+               'via': str(rng.choice(G.VIAS)), 'kT_via': str(rng.choice(['ctor', 'assign']))}
 
 
 def solve(p, guess=None):
@@ -104,13 +105,28 @@ def run_pyhs(ctx, case):
         # density continuation towards the physical branch (the discrete equations have spurious roots at high density)
         guess = None
         res = None
+        s_reused = None
         for e_step in [x for x in (0.15, 0.3, 0.4) if x < eta - 0.02] + [eta]:
-            sp = dict(types=['A'], dr=dr, L=L, d={'A': d}, rho={'A': 6 * e_step / (math.pi * d ** 3)}, kT=kT, pot={'A|A': {'t': 'HS'}}, clo={'A|A': {'t': 'PY', 'hc': case['hc']}}, om={'A|A': {'t': 'SS'}})
-            p = G.build(sp).createPRISM()
+            sp = dict(types=['A'], dr=dr, L=L, d={'A': d}, rho={'A': 6 * e_step / (math.pi * d ** 3)}, kT=kT, pot={'A|A': {'t': 'HS'}}, clo={'A|A': {'t': 'PY', 'hc': case['hc']}}, om={'A|A': {'t': 'SS'}},
+                      via=case.get('via', 'dr'), kT_via=case.get('kT_via', 'ctor'))
+            if case.get('reuse'):
+                # a density sweep on ONE System object, as the tutorials do
+                if s_reused is None:
+                    s_reused = G.build(sp)
+                else:
+                    s_reused.density['A'] = sp['rho']['A']
+                p = s_reused.createPRISM()
+            else:
+                p = G.build(sp).createPRISM()
             res = solve(p, guess)
             if res is None:
                 raise core.Skip('hard-sphere level did not converge')
             guess = np.array(res.x)
+        if case.get('reuse'):
+            # the sweep goes on before the collected object is post-processed
+            s_reused.density['A'] = sp['rho']['A'] * 0.37
+            s_reused.kT = kT * 2.0
+            s_reused.diameter['A'] = d + dr
         r, k, dk = R.grids(L, dr)
         g = np.array(pyPRISM.calculate.pair_correlation(p)['A', 'A'])
         if g.min() < -1e-3:
@@ -145,6 +161,8 @@ def run_pyhs(ctx, case):
             return
     ctx.nontrivial(case)
     ctx.count('eta_decile', int(eta * 10))
+    ctx.count('system_reused_in_sweep', bool(case.get('reuse')))
+    ctx.count('domain_via', case.get('via', 'dr'))
     ctx.sample({'PY_hard_spheres': {'eta': eta, 'd': d, 'kT': kT, 'levels': drs, 'contact': [float(q['gc']) for q in rows], 'contact_exact': ex['gc'],
                                      'S0': [float(q['S0']) for q in rows], 'S0_exact': ex['S0']}}, limit=3)
 
@@ -156,7 +174,8 @@ def dilute_spec(case, dr):
           'LJcs': {'t': 'LJ', 'eps': abs(eps), 'rcut': 2.5, 'shift': True}, 'LJc': {'t': 'LJ', 'eps': abs(eps), 'rcut': 3.0, 'shift': False}, 'WCA': {'t': 'WCA', 'eps': abs(eps)}}[pot]
     cs = {'t': case['clo'], 'hc': case['clo'] == 'MSA'}
     L = int(round(25.6 / dr))
-    return dict(types=['A'], dr=dr, L=L, d={'A': 1.0}, rho={'A': 6e-7 / math.pi}, kT=case['kT'], pot={'A|A': ps}, clo={'A|A': cs}, om={'A|A': {'t': 'SS'}})
+    return dict(types=['A'], dr=dr, L=L, d={'A': 1.0}, rho={'A': 6e-7 / math.pi}, kT=case['kT'], pot={'A|A': ps}, clo={'A|A': cs}, om={'A|A': {'t': 'SS'}},
+                via=case.get('via', 'dr'), kT_via=case.get('kT_via', 'ctor'))
 
 
 def h_exact(ps, clo, kT, x):
